@@ -1,13 +1,16 @@
 #!/bin/bash
-# usage: mutest.sh <patch-file-or-sed-expr-file> Cxx [Cyy ...]  -- applies patch to a scratch worktree of /repo and runs checks there
-# env: MUT_SED="s/a/b/" MUT_FILE=Lib/ufo2ft/util.py (alternative to a patch)
+# usage: mutest.sh <patch-file> Cxx [Cyy ...]  -- applies the patch to a scratch worktree of /repo and runs the checks of an
+# ISOLATED COPY of /verif (its own evidence, generated Coq files and build) against it, so that nothing of a mutant run is
+# left behind in /verif and several runs can go on side by side.
+# env: MUT_SED="s/a/b/" MUT_FILE=Lib/ufo2ft/util.py (alternative to a patch); TIER=quick|thorough
 set -u
-W=/tmp/mut.$$
+HERE="$(cd "$(dirname "$0")/.." && pwd)"
+T=/tmp/vmut.$$
+W=$T/repo
+mkdir -p $T
+trap 'git -C /repo worktree remove --force $W >/dev/null 2>&1; rm -rf $T; git -C /repo worktree prune >/dev/null 2>&1' EXIT
 git -C /repo worktree add --detach -f $W >/dev/null 2>&1 || { echo "worktree failed"; exit 2; }
-EVBAK=/verif/.work/evidence.bak.$$
-mkdir -p /verif/.work && cp -r /verif/evidence $EVBAK
-# mutant runs must not leave their evidence (or regenerated constants) behind
-trap 'git -C /repo worktree remove --force $W >/dev/null 2>&1; rm -rf $W; rm -rf /verif/evidence; mv $EVBAK /verif/evidence; (cd /verif && PYTHONPATH=/repo/Lib:/verif /venv/bin/python harness/consts_from_source.py >/dev/null 2>&1; PYTHONPATH=/repo/Lib:/verif /venv/bin/python harness/pipeline_from_source.py >/dev/null 2>&1)' EXIT
+rsync -a --exclude .git --exclude .work --exclude replays --exclude __pycache__ "$HERE/" $T/verif/
 if [ -n "${MUT_SED:-}" ]; then
   sed -i "$MUT_SED" $W/$MUT_FILE
 else
@@ -16,5 +19,5 @@ else
 fi
 git -C $W diff --stat | tail -1
 for p in "$@"; do
-  UFO2FT_REPO=$W /verif/check $p --tier ${TIER:-quick} 2>&1 | tail -3
+  UFO2FT_REPO=$W $T/verif/check $p --tier ${TIER:-quick} 2>&1 | tail -3
 done
